@@ -13,7 +13,8 @@ list of things that must happen synchronously inside it:
     ('A', sender, value, meta)          an output assignment of a sequential sender begins
     ('Z', sender)                       ... and returns
     ('F', filter_id, meta)              an event filter is consulted (an event is being sent)
-    ('R', dest, etype, data, meta)      a destination handler receives etype with data
+    ('R', dest, etype, data, meta, outs)  a destination handler receives etype with data;
+                                        outs = {sender: its output at that moment}
 
 meta = {'src': sender name, 'list': 'o' | 'e' | 'f', 'idx': position in the configured list,
         'changed': the triggering assignment changed the output}
@@ -35,6 +36,15 @@ What the documentation and the property fix:
     (docs/new_sblocks.rst, "Initialization": a block must be able to process events)
   * an unchanged assignment keeps the old output object (the 'previous' of the next event is
     the output before the change).
+  * 'value' is the NEW output: while the events of a change are being delivered (filters,
+    handlers and everything they trigger) the sender's output already is data['value'] -
+    for sequential and combinational senders alike (DataEdit.add_output / IfOutput read it).
+  * nothing in the documentation or the property limits output events to the time the circuit
+    is "ready": a change after a shutdown/abort request (Event('_ctrl', ...)) or during the
+    clean-up (a block's stop()) is reported like any other.
+  * FSM blocks (Timer, InputExp, generic FSM): every completed transition computes the output
+    (calc_output) and assigns it unless it is UNDEF (docs/FSM.rst "Output"), so a transition
+    that leaves the output unchanged still is an assignment (on_every_output).
 """
 
 from __future__ import annotations
@@ -47,6 +57,16 @@ REC_ETYPES = ('put', 'ev1', 'ev2')
 SETTER_ETYPES = ('set', 'dbl', 'pair')
 INPUT_ETYPES = ('put',)
 COUNTER_ETYPES = ('inc', 'dec', 'put', 'reset')
+TIMER_ETYPES = ('start', 'stop', 'toggle')
+INPUTEXP_ETYPES = ('put',)
+GFSM_ETYPES = ('next', 'stay', 'back')
+CTRL_ETYPES = ('shutdown', 'abort')
+FSM_KINDS = ('timer', 'inputexp', 'gfsm')
+SENDER_KINDS = ('setter', 'input', 'counter', 'func') + FSM_KINDS
+# the generic FSM of the harness: states a, b, c
+GFSM_TABLE = {('next', 'a'): 'b', ('next', 'b'): 'c', ('next', 'c'): 'a',
+              ('stay', 'a'): 'a', ('stay', 'b'): 'b', ('stay', 'c'): 'c',
+              ('back', 'c'): 'a', ('back', 'b'): 'a'}
 
 
 class ModelError(Exception):
@@ -95,7 +115,8 @@ class Ev:
 
 class Blk:
     __slots__ = ('name', 'kind', 'out', 'inited', 'on_output', 'on_every', 'forward',
-                 'init', 'alt', 'check', 'mod', 'nassign')
+                 'init', 'alt', 'check', 'mod', 'nassign', 'state', 'restartable', 'expired',
+                 'has_init', 'outmap', 'stopval', 'stopped')
 
     def __init__(self, name, kind, undef):
         self.name = name
@@ -110,6 +131,13 @@ class Blk:
         self.check = None
         self.mod = None
         self.nassign = 0
+        self.state = None           # FSM kinds
+        self.restartable = True     # timer
+        self.expired = None         # inputexp: output in state 'expired'
+        self.has_init = False       # inputexp: an initial value was given
+        self.outmap = None          # gfsm: state -> output (undef = leave unchanged)
+        self.stopval = NOVAL        # setter: value assigned by stop()
+        self.stopped = False
 
 
 class OutEventModel:
@@ -120,11 +148,18 @@ class OutEventModel:
         self.entries = []
         self.stats = collections.Counter()
         self.depth = 0
+        self.stop_requested = None  # first 'shutdown' / 'abort' that reached the control block
+        self.senders = []
 
     def add(self, blk):
         if blk.name in self.blocks:
             raise ModelError(f"duplicate block {blk.name}")
         self.blocks[blk.name] = blk
+        if blk.kind in SENDER_KINDS:
+            self.senders.append(blk)
+
+    def outputs(self):
+        return {b.name: b.out for b in self.senders}
 
     # ------------------------------------------------------------ stimuli
     def ext_event(self, name, etype, data):
@@ -140,6 +175,18 @@ class OutEventModel:
         self.entries = []
         self.depth = 0
         self._init_block(blk)
+        return self.entries
+
+    def stop_top(self, name):
+        """stop() of a Setter probe that assigns a last value during the clean-up."""
+        blk = self._blk(name)
+        if blk.kind != 'setter' or blk.stopval is NOVAL or blk.stopped:
+            raise ModelError(f"{name}: unexpected assignment in stop()")
+        blk.stopped = True
+        self.entries = []
+        self.depth = 0
+        self.stats['stop_assignment'] += 1
+        self._assign(blk, blk.stopval)
         return self.entries
 
     def cblock_eval(self, name, computed):
@@ -178,6 +225,25 @@ class OutEventModel:
             self._assign(blk, blk.init)
         elif blk.kind == 'counter':
             self._assign(blk, self._modulo(blk, blk.init))
+        elif blk.kind == 'timer':
+            if blk.init not in ('on', 'off'):
+                raise ModelError('bad timer state')
+            blk.state = blk.init
+            self._assign(blk, blk.state == 'on')
+        elif blk.kind == 'inputexp':
+            if blk.has_init:
+                blk.state = 'valid'
+                self._assign(blk, blk.init)
+            else:
+                blk.state = 'expired'
+                self._assign(blk, blk.expired)
+        elif blk.kind == 'gfsm':
+            if blk.init not in blk.outmap or blk.outmap[blk.init] is self.undef:
+                raise ModelError('bad initial state of the generic FSM')
+            blk.state = blk.init
+            self._assign(blk, blk.outmap[blk.state])
+        elif blk.kind == 'ctrl':
+            pass
         else:
             raise ModelError(f"{blk.name}: cannot initialise a {blk.kind}")
 
@@ -194,6 +260,10 @@ class OutEventModel:
         self.depth += 1
         self.entries.append(('A', blk.name, value, {'changed': changed}))
         blk.nassign += 1
+        if self.stop_requested is not None and changed and blk.on_output:
+            self.stats['change_after_stop_request'] += 1
+        if not changed and blk.kind in FSM_KINDS and blk.on_every:
+            self.stats['fsm_unchanged_every'] += 1
         if changed:
             if previous is not self.undef and value != value:   # pylint: disable=comparison-with-itself
                 self.stats['nan_change'] += 1
@@ -279,6 +349,15 @@ class OutEventModel:
             return 'data', new
         if kind == 'only':
             return 'data', {k: v for k, v in data.items() if k in ('value', 'source')}
+        if kind == 'veq':
+            return ('accept' if data.get('value', NOVAL) == arg else 'reject'), None
+        if kind == 'addout':
+            # DataEdit.add_output(key, block): "Add key=block's output"
+            self.stats['addout_filter'] += 1
+            return 'data', {**data, 'now': self._blk(arg).out}
+        if kind == 'ifout':
+            # IfOutput(block): passes while the block's output is true
+            return ('accept' if self._blk(arg).out else 'reject'), None
         if kind == 'empty':
             # docs/events.rst: a returned dict (any dict) accepts the event and becomes its data
             return 'data', {}
@@ -298,6 +377,14 @@ class OutEventModel:
             self.stats['cond_event'] += 1
         if not isinstance(etype, str) or not etype:
             raise ModelError(f"bad event type {etype!r}")
+        if blk.kind == 'ctrl':
+            if etype not in CTRL_ETYPES:
+                raise ModelError(f"control block: unknown event {etype!r}")
+            blk.inited = True
+            if self.stop_requested is None:
+                self.stop_requested = etype
+            self.stats['ctrl_event'] += 1
+            return
         if not blk.inited:
             # events are generated during the initialisation as well: the destination is
             # initialised first
@@ -309,7 +396,7 @@ class OutEventModel:
         if blk.kind == 'rec':
             if etype not in REC_ETYPES:
                 raise ModelError(f"recorder: unknown event {etype!r}")
-            self.entries.append(('R', name, etype, dict(data), meta))
+            self.entries.append(('R', name, etype, dict(data), meta, self.outputs()))
             if meta is not None:
                 self.stats['delivered'] += 1
                 if meta['list'] == 'e' and not meta['changed']:
@@ -356,5 +443,40 @@ class OutEventModel:
             else:
                 raise ModelError(f"Counter: unknown event {etype!r}")
             self._assign(blk, self._modulo(blk, new))
+            return
+        if blk.kind == 'timer':
+            if etype == 'start':
+                ok = blk.restartable or blk.state != 'on'
+                new = 'on'
+            elif etype == 'stop':
+                ok = blk.restartable or blk.state != 'off'
+                new = 'off'
+            elif etype == 'toggle':
+                ok = True
+                new = 'off' if blk.state == 'on' else 'on'
+            else:
+                raise ModelError(f"Timer: unknown event {etype!r}")
+            if ok:
+                blk.state = new
+                self._assign(blk, new == 'on')
+            return
+        if blk.kind == 'inputexp':
+            if etype != 'put' or 'value' not in data:
+                raise ModelError(f"InputExp: bad event {etype!r}")
+            blk.state = 'valid'
+            self._assign(blk, data['value'])
+            return
+        if blk.kind == 'gfsm':
+            if etype not in GFSM_ETYPES:
+                raise ModelError(f"generic FSM: unknown event {etype!r}")
+            new = GFSM_TABLE.get((etype, blk.state))
+            if new is None:
+                return          # no transition: nothing happens to the output
+            blk.state = new
+            out = blk.outmap[new]
+            if out is not self.undef:
+                self._assign(blk, out)
+            else:
+                self.stats['fsm_undef_output'] += 1
             return
         raise ModelError(f"unknown block kind {blk.kind!r}")
